@@ -43,13 +43,18 @@ func runC21(c *core.Ctx) {
 			root, path := fieldPath(f, cm.L)
 			return len(path) == 1 && path[0] == dsP+"SyncStatus.PeersNum" && varOf(f, root) == status && core.IsConstInt(f.Info(), cm.R, 0)
 		})
-		ok1 := len(e1) >= 1
-		for _, e := range e1 {
-			if o, _ := edgeLeadsOnlyTo(f, e.B, e.Succ, errRet); !o {
-				ok1 = false
+		_ = e1
+		// the final return hands back the keeper's error, which is nil only if no wait was recorded: for this
+		// row "rejecting" means an early error return; the keeper return counts as accepting
+		ok1, why1 := rejectedWhen(f, func(ft core.Fact) bool {
+			cm, ok := core.NormCmp(ft)
+			if !ok || cm.R == nil || cm.Op != token.EQL {
+				return false
 			}
-		}
-		c.Check(ok1, "no peers => refused", "T8 DecisionTable", f.Pos(), "PeersNum == 0 leads only to error returns", "emission can be permitted without any peer")
+			root, path := fieldPath(f, cm.L)
+			return len(path) == 1 && path[0] == dsP+"SyncStatus.PeersNum" && varOf(f, root) == status && core.IsConstInt(f.Info(), cm.R, 0)
+		}, errRet)
+		c.Check(ok1, "no peers => refused", "T8 DecisionTable", f.Pos(), "PeersNum == 0 leads only to error returns and the remaining tests are reached only with a peer", "emission can be permitted without any peer: "+why1)
 		e2 := edgesWithFact(f, func(ft core.Fact) bool {
 			if !ft.Truth {
 				return false
